@@ -397,5 +397,188 @@ theorem lenInv_swapVertex (k : Kernel) (a b : Nat) (h : LenInv k) : LenInv (k.sw
       phf := by simpa [swapVProps, nHF] using h.phf
       pc := by simpa [swapVProps, nC] using h.pc }
 
+/-! ### deletion stages -/
+theorem lenInv_of_shape (k k' : Kernel) (h : LenInv k)
+    (hnV : k'.nV = k.nV) (hE : k'.edges.length = k.edges.length) (hF : k'.faces.length = k.faces.length)
+    (hC : k'.cells.length = k.cells.length) (hvd : k'.vDel.length = k.vDel.length) (hed : k'.eDel.length = k.eDel.length)
+    (hfd : k'.fDel.length = k.fDel.length) (hcd : k'.cDel.length = k.cDel.length)
+    (hvb : k'.vBU = k.vBU) (heb : k'.eBU = k.eBU) (hfb : k'.fBU = k.fBU)
+    (ho : k'.outHes.length = k.outHes.length) (hi : k'.incHfs.length = k.incHfs.length)
+    (hc : k'.incCell.length = k.incCell.length) (hp : k'.props = k.props) : LenInv k' :=
+  { vDel := by rw [hvd, hnV]; exact h.vDel
+    eDel := by simp only [nE]; rw [hed, hE]; exact h.eDel
+    fDel := by simp only [nF]; rw [hfd, hF]; exact h.fDel
+    cDel := by simp only [nC]; rw [hcd, hC]; exact h.cDel
+    outHes := by intro hb; rw [hvb] at hb; rw [ho, hnV]; exact h.outHes hb
+    incHfs := by intro hb; rw [heb] at hb; simp only [nHE]; rw [hi, hE]; exact h.incHfs hb
+    incCell := by intro hb; rw [hfb] at hb; simp only [nHF]; rw [hc, hF]; exact h.incCell hb
+    pv := by rw [hp, hnV]; exact h.pv
+    pe := by rw [hp]; simp only [nE]; rw [hE]; exact h.pe
+    phe := by rw [hp]; simp only [nHE]; rw [hE]; exact h.phe
+    pf := by rw [hp]; simp only [nF]; rw [hF]; exact h.pf
+    phf := by rw [hp]; simp only [nHF]; rw [hF]; exact h.phf
+    pc := by rw [hp]; simp only [nC]; rw [hC]; exact h.pc }
+
+theorem foldl_length_inv {α β} (g : List α → β → List α) (hg : ∀ l x, (g l x).length = l.length)
+    (xs : List β) (l : List α) : (xs.foldl g l).length = l.length := by
+  induction xs generalizing l with
+  | nil => rfl
+  | cons x t ih => simp only [List.foldl_cons]; rw [ih, hg]
+
+theorem unlinkCell_incCell_length (k : Kernel) (h : Nat) : (k.unlinkCell h).incCell.length = k.incCell.length := by
+  have key := foldl_length_inv (fun (ic : List (Option Nat)) hf => if ic.getD hf none == some h then ic.set hf none else ic)
+    (by intro l x; show (if l.getD x none == some h then l.set x none else l).length = l.length; split <;> simp) (k.cellAt h) k.incCell
+  unfold unlinkCell
+  split
+  · simp only []
+    split
+    · rw [foldl_reorder_incCell]; exact key
+    · exact key
+  · rfl
+theorem unlinkCell_incHfs_length (k : Kernel) (h : Nat) : (k.unlinkCell h).incHfs.length = k.incHfs.length := by
+  unfold unlinkCell; simp only []; split <;> first | rfl | (split <;> simp)
+
+theorem lenInv_unlinkCell (k : Kernel) (h : Nat) (hi : LenInv k) : LenInv (k.unlinkCell h) :=
+  lenInv_of_shape k _ hi (by simp) (by simp) (by simp) (by simp) (by simp) (by simp) (by simp) (by simp)
+    (by simp) (by simp) (by simp) (by simp) (unlinkCell_incHfs_length k h) (unlinkCell_incCell_length k h) (by simp)
+
+theorem lenInv_flagCell (k : Kernel) (h : Nat) (hi : LenInv k) : LenInv (k.flagCell h) :=
+  lenInv_of_shape k _ hi (by simp) (by simp) (by simp) (by simp) (by simp) (by simp) (by simp) (by simp)
+    (by simp) (by simp) (by simp) (by simp [flagCell]) (by simp [flagCell]) (by simp [flagCell]) (by simp)
+
+theorem unlinkFaceStep_incHfs_length (k : Kernel) (h he : Nat) : (unlinkFaceStep h k he).incHfs.length = k.incHfs.length := by
+  unfold unlinkFaceStep; simp only []; split <;> simp
+theorem unlinkFace_incHfs_length (k : Kernel) (h : Nat) : (k.unlinkFace h).incHfs.length = k.incHfs.length := by
+  unfold unlinkFace; split
+  · exact foldl_frame (·.incHfs.length) (unlinkFaceStep h) (fun k x => unlinkFaceStep_incHfs_length k h x) _ k
+  · rfl
+
+theorem lenInv_unlinkFace (k : Kernel) (h : Nat) (hi : LenInv k) : LenInv (k.unlinkFace h) :=
+  lenInv_of_shape k _ hi (by simp) (by simp) (by simp) (by simp) (by simp) (by simp) (by simp) (by simp)
+    (by simp) (by simp) (by simp) (by simp) (unlinkFace_incHfs_length k h) (by simp) (by simp)
+
+theorem lenInv_flagFace (k : Kernel) (h : Nat) (hi : LenInv k) : LenInv (k.flagFace h) :=
+  lenInv_of_shape k _ hi (by simp) (by simp) (by simp) (by simp) (by simp) (by simp) (by simp) (by simp)
+    (by simp) (by simp) (by simp) (by simp [flagFace]) (by simp [flagFace]) (by simp [flagFace]) (by simp)
+
+theorem lenInv_unlinkEdge (k : Kernel) (h : Nat) (hi : LenInv k) : LenInv (k.unlinkEdge h) :=
+  lenInv_of_shape k _ hi (by simp) (by simp) (by simp) (by simp) (by simp) (by simp) (by simp) (by simp)
+    (by simp) (by simp) (by simp) (by unfold unlinkEdge; split <;> simp) (by simp) (by simp) (by simp)
+
+theorem lenInv_flagEdge (k : Kernel) (h : Nat) (hi : LenInv k) : LenInv (k.flagEdge h) :=
+  lenInv_of_shape k _ hi (by simp) (by simp) (by simp) (by simp) (by simp) (by simp) (by simp) (by simp)
+    (by simp) (by simp) (by simp) (by simp [flagEdge]) (by simp [flagEdge]) (by simp [flagEdge]) (by simp)
+
+theorem lenInv_flagVertex (k : Kernel) (h : Nat) (hi : LenInv k) : LenInv (k.flagVertex h) :=
+  lenInv_of_shape k _ hi (by simp) (by simp) (by simp) (by simp) (by simp) (by simp) (by simp) (by simp)
+    (by simp) (by simp) (by simp) (by simp [flagVertex]) (by simp [flagVertex]) (by simp [flagVertex]) (by simp)
+
+theorem colsLen_erase_any (cs : List Col) (l : List α) (h : Nat) (hc : ColsLen cs l.length) :
+    ColsLen (cs.map (·.erase h)) (l.eraseIdx h).length := by
+  by_cases hh : h < l.length
+  · rw [List.length_eraseIdx, if_pos hh]; exact colsLen_erase cs _ h hc hh
+  · rw [List.length_eraseIdx, if_neg hh]; exact colsLen_erase_ge cs _ h hc (by omega)
+
+theorem colsLen_erase_pair_any (cs : List Col) (l : List α) (h : Nat) (hc : ColsLen cs (2 * l.length)) :
+    ColsLen (cs.map (fun c => (c.erase (2 * h + 1)).erase (2 * h))) (2 * (l.eraseIdx h).length) := by
+  by_cases hh : h < l.length
+  · rw [List.length_eraseIdx, if_pos hh]; exact colsLen_erase_pair cs _ h hc hh
+  · rw [List.length_eraseIdx, if_neg hh]; exact colsLen_erase_pair_ge cs _ h hc (by omega)
+
+theorem length_eraseIdx_eq {α β} (a : List α) (b : List β) (h : Nat) (hl : a.length = b.length) :
+    (a.eraseIdx h).length = (b.eraseIdx h).length := by
+  simp [List.length_eraseIdx, hl]
+
+theorem length_erase_pair {α β} (a : List α) (b : List β) (h : Nat) (hl : a.length = 2 * b.length) :
+    ((a.eraseIdx (2 * h + 1)).eraseIdx (2 * h)).length = 2 * (b.eraseIdx h).length := by
+  simp only [List.length_eraseIdx, hl]
+  by_cases hh : h < b.length
+  · have h1 : 2 * h + 1 < 2 * b.length := by omega
+    have h2 : 2 * h < 2 * b.length - 1 := by omega
+    simp [hh, h1, h2]; omega
+  · have h1 : ¬ 2 * h + 1 < 2 * b.length := by omega
+    have h2 : ¬ 2 * h < 2 * b.length := by omega
+    simp [hh, h1, h2]
+
+theorem lenInv_eraseCell (k : Kernel) (h : Nat) (hi : LenInv k) : LenInv (k.eraseCell h) := by
+  unfold eraseCell
+  exact {
+    vDel := by simpa using hi.vDel
+    eDel := by simpa [nE] using hi.eDel
+    fDel := by simpa [nF] using hi.fDel
+    cDel := by simpa [nC] using length_eraseIdx_eq k.cDel k.cells h (by simpa [nC] using hi.cDel)
+    outHes := by simpa using hi.outHes
+    incHfs := by simpa [nHE] using hi.incHfs
+    incCell := by
+      intro hb; simp only at hb
+      have := hi.incCell hb
+      simp only [nHF] at this ⊢
+      split <;> simp [this]
+    pv := by simpa [cellDeleted] using hi.pv
+    pe := by simpa [cellDeleted, nE] using hi.pe
+    phe := by simpa [cellDeleted, nHE] using hi.phe
+    pf := by simpa [cellDeleted, nF] using hi.pf
+    phf := by simpa [cellDeleted, nHF] using hi.phf
+    pc := by simpa [cellDeleted, nC] using colsLen_erase_any k.props.c k.cells h (by simpa [nC] using hi.pc) }
+
+theorem lenInv_eraseFace (k : Kernel) (h : Nat) (hi : LenInv k) : LenInv (k.eraseFace h) := by
+  unfold eraseFace
+  have hcells : (if (!k.fast) = true then
+      (if k.fBU = true then toSet ((k.incCell.drop (heOf h 0)).filterMap id) else k.liveCells).foldl
+        (fun cl c => cl.modify c (fixHalfList h)) k.cells else k.cells).length = k.cells.length := by
+    split <;> simp [length_foldl_modify_gen]
+  exact {
+    vDel := by simpa using hi.vDel
+    eDel := by simpa [nE] using hi.eDel
+    fDel := by simpa [nF] using length_eraseIdx_eq k.fDel k.faces h (by simpa [nF] using hi.fDel)
+    cDel := by simp only [nC]; rw [hcells]; exact hi.cDel
+    outHes := by simpa using hi.outHes
+    incHfs := by
+      intro hb; simp only at hb
+      have := hi.incHfs hb
+      simp only [nHE] at this ⊢
+      split <;> simp [this]
+    incCell := by
+      intro hb; simp only at hb
+      have := hi.incCell hb
+      simp only [nHF, nF, hb, if_true] at this ⊢
+      unfold heOf
+      simpa using length_erase_pair k.incCell k.faces h this
+    pv := by simpa [faceDeleted] using hi.pv
+    pe := by simpa [faceDeleted, nE] using hi.pe
+    phe := by simpa [faceDeleted, nHE] using hi.phe
+    pf := by simpa [faceDeleted, nF] using colsLen_erase_any k.props.f k.faces h (by simpa [nF] using hi.pf)
+    phf := by simpa [faceDeleted, nHF, nF] using colsLen_erase_pair_any k.props.hf k.faces h (by simpa [nHF, nF] using hi.phf)
+    pc := by simp only [faceDeleted, nC]; rw [hcells]; exact hi.pc }
+
+theorem lenInv_eraseEdge (k : Kernel) (h : Nat) (hi : LenInv k) : LenInv (k.eraseEdge h) := by
+  unfold eraseEdge
+  have hfaces : (if (!k.fast) = true then
+      (if k.eBU = true then toSet (((k.incHfs.drop (heOf h 0)).flatten).map eOf) else k.liveFaces).foldl
+        (fun fl f => fl.modify f (fixHalfList h)) k.faces else k.faces).length = k.faces.length := by
+    split <;> simp [length_foldl_modify_gen]
+  exact {
+    vDel := by simpa using hi.vDel
+    eDel := by simpa [nE] using length_eraseIdx_eq k.eDel k.edges h (by simpa [nE] using hi.eDel)
+    fDel := by simp only [nF]; rw [hfaces]; exact hi.fDel
+    cDel := by simpa [nC] using hi.cDel
+    outHes := by
+      intro hb; simp only at hb
+      have := hi.outHes hb
+      by_cases hf : k.fast = true <;> simp [this, hf, hb]
+    incHfs := by
+      intro hb; simp only at hb
+      have := hi.incHfs hb
+      simp only [nHE, nE, hb, if_true] at this ⊢
+      unfold heOf
+      simpa using length_erase_pair k.incHfs k.edges h this
+    incCell := by intro hb; simp only at hb; simp only [nHF]; rw [hfaces]; exact hi.incCell hb
+    pv := by simpa [edgeDeleted] using hi.pv
+    pe := by simpa [edgeDeleted, nE] using colsLen_erase_any k.props.e k.edges h (by simpa [nE] using hi.pe)
+    phe := by simpa [edgeDeleted, nHE, nE] using colsLen_erase_pair_any k.props.he k.edges h (by simpa [nHE, nE] using hi.phe)
+    pf := by simp only [edgeDeleted, nF]; rw [hfaces]; exact hi.pf
+    phf := by simp only [edgeDeleted, nHF]; rw [hfaces]; exact hi.phf
+    pc := by simpa [edgeDeleted, nC] using hi.pc }
+
 end Kernel
 end OVM
